@@ -216,24 +216,31 @@ theorem code_line (toks : List Tok) (tail : List Char)
   apply go_none_of_findSub _ _ _ _ _ _ 0
   simpa [containsSub, opener] using hno
 
+/-- the lexical facts about a whole-line line comment `ws // text` whose text holds no block
+    opener: no block comment starts on it, and it begins with the line-comment prefix -/
+theorem lineComment_facts (ws t : List Char) (hws : wsOk ws = true)
+    (hno : containsSub opener (linePrefix ++ t) = false) :
+    findMultiLineStart cSyn (ws ++ (linePrefix ++ t)) = none ∧
+      (trim (ws ++ (linePrefix ++ t))).isEmpty = false ∧
+      isSingleLineComment cSyn (trim (ws ++ (linePrefix ++ t))) = true := by
+  have hw := wsOk_ws ws hws
+  have htrim : trim (ws ++ (linePrefix ++ t)) = '/' :: '/' :: trimEnd t := by
+    simp only [linePrefix, List.cons_append, List.nil_append]
+    rw [trim_ws_cons ws '/' _ hw (by decide), trimEnd_cons '/' t (by decide)]
+  refine ⟨?_, by rw [htrim]; rfl, by rw [cSyn_single, htrim]; rfl⟩
+  rw [cSyn_start, opener,
+    go_skip_safe '/' ['*'] ws _ 0 (fun c hc => isWs_props c (hw c hc))]
+  rw [go_none_of_findSub _ _ _ _ _ _ 0 (by simpa [containsSub, opener] using hno)]
+  rfl
+
 theorem lineComment_line (ws t : List Char) (hws : wsOk ws = true)
     (hno : containsSub opener (linePrefix ++ t) = false)
     (hnd : noDirectiveB (ws ++ (linePrefix ++ t)) = true) :
     processLine cSyn (ws ++ (linePrefix ++ t)) st0 = (.comment, st0) ∧
       hasIgnoreFile cSyn (ws ++ (linePrefix ++ t)) = false := by
   obtain ⟨hnd1, hnd2⟩ := noDirectiveB_spec _ hnd
-  refine ⟨?_, hnd2⟩
-  have hw := wsOk_ws ws hws
-  have htrim : trim (ws ++ (linePrefix ++ t)) = '/' :: '/' :: trimEnd t := by
-    simp only [linePrefix, List.cons_append, List.nil_append]
-    rw [trim_ws_cons ws '/' _ hw (by decide), trimEnd_cons '/' t (by decide)]
-  apply line_comment_is_comment cSyn _ st0 counting_st0 rfl hnd1
-  · rw [htrim]; rfl
-  · rw [cSyn_start, opener,
-      go_skip_safe '/' ['*'] ws _ 0 (fun c hc => isWs_props c (hw c hc))]
-    rw [go_none_of_findSub _ _ _ _ _ _ 0 (by simpa [containsSub, opener] using hno)]
-    rfl
-  · rw [cSyn_single, htrim]; rfl
+  obtain ⟨h1, h2, h3⟩ := lineComment_facts ws t hws hno
+  exact ⟨line_comment_is_comment cSyn _ st0 counting_st0 rfl hnd1 h2 h1 h3, hnd2⟩
 
 /-! ### block comments -/
 
